@@ -27,7 +27,8 @@ WORLD0 = {"lan": [[1, 0, 0, 2, 2], [2, 2, 0, 4, 2], [3, 0, 2, 2, 4]],
           "obs": [{"id": 11, "kind": "static", "shape": ["rect", 2, 1], "t0": 0, "poses": [[3, 2, 0]]},
                   {"id": 12, "kind": "static", "shape": ["disc", 1, 0], "t0": 0, "poses": [[2, 2, 0]]},
                   {"id": 13, "kind": "dynamic", "shape": ["rect", 1, 1], "t0": 0, "poses": [[2, 2, 0], [4, 2, 0], [6, 2, 1]]},
-                  {"id": 14, "kind": "dynamic", "shape": ["poly", 2, 2], "t0": 1, "poses": [[2, 4, 0]]}]}
+                  {"id": 14, "kind": "dynamic", "shape": ["poly", 2, 2], "t0": 1, "poses": [[2, 4, 0]]},
+                  {"id": 15, "kind": "dynamic", "shape": ["rect", 3, 1], "t0": 0, "poses": [[2, 2, 0], [2, 2, 1], [2, 2, 0]]}]}
 
 
 def model_check(ctx):
@@ -50,7 +51,7 @@ def cases(ctx):
     for i, w in enumerate(walks):
         cs.append({"src": "tlc", "world": WORLD0, "ops": [[a[0], a[1]] for a in w], "reuse": i % 2})
     # reader routes on every subset of the model world's obstacles
-    for mask in range(1, 16):
+    for mask in range(1, 32):
         ids = [o["id"] for k, o in enumerate(WORLD0["obs"]) if mask >> k & 1]
         for fmt in ("open_xml", "open_pb"):
             cs.append({"src": "reader", "world": WORLD0, "ops": [["add", i] for i in ids] + [[fmt, 0]], "reuse": 0})
@@ -74,10 +75,15 @@ def _random_case(seed):
     obs = []
     for k in range(r.randint(1, 4)):
         kind = r.choice(["static", "dynamic", "dynamic"])
-        shape = r.choice([["rect", 2, 1], ["rect", 1, 1], ["poly", 2, 2], ["poly", 1, 3], ["disc", 1, 0], ["disc", 2, 0]])
+        shape = r.choice([["rect", 2, 1], ["rect", 1, 1], ["rect", 3, 1], ["poly", 2, 2], ["poly", 1, 3], ["disc", 1, 0],
+                          ["disc", 2, 0]])
         n = 1 if kind == "static" else r.randint(1, 4)
+        poses = [[r.randint(-2, 14), r.randint(-2, 10), r.randint(0, 3)] for _ in range(n)]
+        for i in range(1, n):                 # standing still / turning on the spot: same position, maybe another heading
+            if r.random() < 0.35:
+                poses[i] = [poses[i - 1][0], poses[i - 1][1], r.randint(0, 3)]
         obs.append({"id": 11 + k, "kind": kind, "shape": shape, "t0": r.randint(0, 2) if kind == "dynamic" else 0,
-                    "poses": [[r.randint(-2, 14), r.randint(-2, 10), r.randint(0, 3)] for _ in range(n)]})
+                    "poses": poses})
     world = {"lan": lan, "obs": obs}
     ops, present = [], set()
     for _ in range(10):
